@@ -47,14 +47,16 @@ func runC02(r *core.Run) {
 		if backend != "" {
 			r.Count("histories_through_the_"+backend+"_adapter", 1)
 		}
-		env, err := menv.New(world, "m0", core.TempDir("c02"), menv.Opts{FeePpk: fee0, MPP: h%2 == 0, Backend: backend})
+		// multi-path melts on every other history, and on every second history of each adapter (h = 1, 3 mod 8)
+		mpp := h%2 == 0 || h%8 == 1 || h%8 == 3
+		env, err := menv.New(world, "m0", core.TempDir("c02"), menv.Opts{FeePpk: fee0, MPP: mpp, Backend: backend, LndNoRouteEvery: 2})
 		if err != nil {
 			r.Violate("setup", "cannot load mint: "+err.Error(), sig, nil)
 			return
 		}
 		defer env.Close()
 		s := sim.New(rng, world, env)
-		cfg := sim.GenCfg{Adversarial: true, Rotation: true, Restart: h%3 == 0, Fees: c02Fees, MPP: h%2 == 0, Internal: true, LNOutcomes: true, OddMsat: true}
+		cfg := sim.GenCfg{Adversarial: true, Rotation: true, Restart: h%3 == 0, Fees: c02Fees, MPP: mpp, Internal: true, LNOutcomes: true, OddMsat: true}
 		moved := ""
 		s.Mismatch = func(op, kind, reason, detail string) {
 			if kind != "accepted" {
